@@ -313,7 +313,7 @@ def rejudge(workdir, engine, case_ids, variants, tag):
     if not p["ok"] or p["error"]:
         raise RuntimeError("rejudge failed: " + out[-1500:])
     os.remove(sub)
-    return set(v["case"] for v in p["verdicts"] if v["property"] in ("C01", "C04", "C06")), p
+    return set(v["case"] for v in p["verdicts"] if v["property"] in ("C01", "C04", "C06", "C14")), p
 
 
 # variant sets under which a run is still a behaviour the Recommendation allows
